@@ -121,11 +121,17 @@ class Simulator:
                     ),
                     _jac,
                 )
-                jac_fn = lambda t, x: _jac_fn(  # noqa: E731
-                    t,
-                    x,
-                    self.model._parameters.values(),  # noqa: SLF001
-                )
+                parameter_names = self.model.get_parameter_names()
+
+                def _numeric_jac(t: float, x: ArrayLike) -> ArrayLike:
+                    # The parameters have to be read on every call, because
+                    # they can be updated between simulations
+                    if (cache := self.model._cache) is None:  # noqa: SLF001
+                        cache = self.model._create_cache()  # noqa: SLF001
+                    values = cache.all_parameter_values
+                    return _jac_fn(t, x, [values[k] for k in parameter_names])
+
+                jac_fn = _numeric_jac
 
             except Exception as e:  # noqa: BLE001
                 _LOGGER.warning(str(e), stacklevel=2)
